@@ -131,6 +131,9 @@ func runC04(c *Ctx, r *Report) {
 
 	// ---- R6: encoder pairing ---------------------------------------------------------------
 	c04Encoder(c, r)
+
+	// ---- R7: a verdict, once produced, reaches the caller --------------------------------------
+	c04VerdictPropagation(c, r)
 }
 
 func storesInto(fn *ssa.Function, prefix string) []ssa.Instruction {
@@ -914,4 +917,128 @@ func c04Encoder(c *Ctx, r *Report) {
 		return true
 	})
 	r.check(okSum, "C04-R6-encoder-pairing", "Encode/crc-value", c.pos(fd.Pos()), "the CRC written is the hash's Sum16", "the value written as CRC is not the Sum16 of the hash")
+}
+
+// c04VerdictPropagation (R7): an integrity verdict, once produced, reaches the caller. The
+// functions that create an IntegrityError (header CRC mismatch, file CRC mismatch) and every
+// module function that calls one of them are the verdict carriers; at every call of a carrier in
+// the reachable decoder the error is returned or replaced by a non-nil error on every path
+// (same path analysis as C11-R1), the only exception being the chain-end guard of DecodeChained,
+// which tests for the read-size sentinel and therefore cannot match an IntegrityError.
+func c04VerdictPropagation(c *Ctx, r *Report) {
+	roots, _ := c.rootFuncs(decodeRoots)
+	ri := c.reach(roots)
+	ieObj := c.fit.Types.Scope().Lookup("IntegrityError")
+	if ieObj == nil {
+		r.fail("C04-R7-verdict-propagates", "IntegrityError", "", "type not found")
+		return
+	}
+	isIE := func(t types.Type) bool { return types.Identical(t, ieObj.Type()) }
+	carrier := map[*ssa.Function]bool{}
+	var scope []*ssa.Function
+	for _, fn := range ri.module() {
+		if fnPkgPath(fn) != modPath {
+			continue
+		}
+		scope = append(scope, fn)
+		for _, b := range fn.Blocks {
+			for _, ins := range b.Instrs {
+				for _, op := range ins.Operands(nil) {
+					if *op == nil {
+						continue
+					}
+					switch v := (*op).(type) {
+					case *ssa.Const:
+						if isIE(v.Type()) {
+							carrier[fn] = true
+						}
+					case *ssa.Global:
+						if pt, ok := v.Type().(*types.Pointer); ok && isIE(pt.Elem()) {
+							if _, isLoad := ins.(*ssa.UnOp); isLoad {
+								// only a load that flows into a return/MakeInterface creates a verdict; comparisons (errors.Is) do not
+								if ld := ins.(*ssa.UnOp); ld.Referrers() != nil {
+									for _, ref := range *ld.Referrers() {
+										if mi, ok := ref.(*ssa.MakeInterface); ok && mi.Referrers() != nil {
+											for _, r2 := range *mi.Referrers() {
+												if _, isRet := r2.(*ssa.Return); isRet {
+													carrier[fn] = true
+												}
+												if _, isPhi := r2.(*ssa.Phi); isPhi {
+													carrier[fn] = true
+												}
+											}
+										}
+									}
+								}
+							}
+						}
+					}
+				}
+			}
+		}
+	}
+	nOrigins := len(carrier)
+	cg := c.callGraph()
+	for changed := true; changed; {
+		changed = false
+		for _, fn := range scope {
+			if carrier[fn] {
+				continue
+			}
+			res := fn.Signature.Results()
+			if res.Len() == 0 || !isErrorType(res.At(res.Len()-1).Type()) {
+				continue
+			}
+			if n := cg.Nodes[fn]; n != nil {
+				for _, e := range n.Out {
+					if carrier[e.Callee.Func] {
+						carrier[fn] = true
+						changed = true
+					}
+				}
+			}
+		}
+	}
+	n := 0
+	for _, fn := range scope {
+		sites := errorCalls(fn)
+		if len(sites) == 0 {
+			continue
+		}
+		nf := c.newNilFacts(fn)
+		per := map[string]int{}
+		for _, s := range sites {
+			f := s.call.Common().StaticCallee()
+			if f == nil || !carrier[f] {
+				continue
+			}
+			n++
+			key := fmt.Sprintf("%s/%s#%d", fn.Name(), f.Name(), per[f.Name()])
+			per[f.Name()]++
+			pos := c.pos(s.call.Pos())
+			res := fn.Signature.Results()
+			if res.Len() == 0 || !isErrorType(res.At(res.Len()-1).Type()) {
+				r.fail("C04-R7-verdict-propagates", key, pos, fn.Name()+" calls "+f.Name()+", which can report a checksum failure, but cannot return an error itself")
+				continue
+			}
+			fr := nf.analyseSite(s)
+			if len(fr.swallows) == 0 {
+				r.ok("C04-R7-verdict-propagates", key, pos, "the verdict of "+f.Name()+" is returned on every path")
+				continue
+			}
+			if fn.Name() == "DecodeChained" {
+				ok, why := c11ChainSwallow(c, fn, s, fr.swallows)
+				r.check(ok, "C04-R7-verdict-propagates", key, pos, "only the read-size sentinel ends a chain silently: "+why, "DecodeChained can drop a checksum verdict: "+why)
+				continue
+			}
+			var where []string
+			for _, sw := range fr.swallows {
+				where = append(where, describeReturn(c, sw))
+			}
+			r.fail("C04-R7-verdict-propagates", key, pos, fmt.Sprintf("the error of %s (which reports header/file checksum failures) is not returned on a path to %s: a file with a mismatching checksum is accepted by %s while other entry points reject it", f.Name(), strings.Join(where, ", "), fn.Name()))
+		}
+	}
+	r.set("verdict_origins", nOrigins)
+	r.need("functions creating an IntegrityError", nOrigins, 2)
+	r.need("calls of verdict carriers", n, 5)
 }
